@@ -258,6 +258,7 @@ namespace sim
 				return typename Protocol::endpoint{};
 			}
 
+			ec.clear();
 			return m_user_bound_to;
 		}
 
@@ -277,6 +278,7 @@ namespace sim
 				return typename Protocol::endpoint{};
 			}
 
+			ec.clear();
 			return m_bound_to;
 		}
 
